@@ -8,8 +8,14 @@ package lnwallet
 // repeats; corrupted / replayed revocations are rejected by the receiver.
 
 import (
+	"context"
+	"crypto/sha256"
 	"fmt"
+	"math/bits"
 	"testing"
+
+	"github.com/btcsuite/btcd/chainhash/v2"
+	"github.com/lightningnetwork/lnd/input"
 
 	"github.com/btcsuite/btcd/btcec/v2"
 	"github.com/lightningnetwork/lnd/lnwire"
@@ -135,6 +141,9 @@ func verifC06Case(vc *verifCtx, i int) {
 		if e.ended {
 			break
 		}
+		if fr.Intn(100) < hostilePct/10 {
+			e.probeSplicedChain(fr.Intn(2), fr)
+		}
 		if fr.Intn(100) < faultPct {
 			// mid-handler crash with a reconnect attempt on the live
 			// object first
@@ -219,5 +228,126 @@ func TestVerifC06Release(t *testing.T) {
 			continue
 		}
 		verifC06Case(vc, i)
+	}
+}
+
+// ---------------------------------------------------------------------------
+// spliced-chain probe
+
+// verifC06RefStore is the BOLT-3 insert_secret consistency rule (lnd's index i
+// is the BOLT-3 index 2^48-1-i).
+type verifC06RefStore struct {
+	known map[int]verifC06RefEl
+}
+
+type verifC06RefEl struct {
+	I uint64
+	S [32]byte
+}
+
+func verifC06Tz(I uint64) int {
+	if I == 0 {
+		return 48
+	}
+	return bits.TrailingZeros64(I)
+}
+
+func (st *verifC06RefStore) insert(height uint64, s [32]byte) bool {
+	I := (uint64(1)<<48 - 1) - height
+	b := verifC06Tz(I)
+	for b2 := 0; b2 < b; b2++ {
+		k, ok := st.known[b2]
+		if !ok {
+			continue
+		}
+		p := s
+		for bit := b - 1; bit >= 0; bit-- {
+			if k.I&(1<<uint(bit)) != 0 {
+				p[bit/8] ^= 1 << uint(bit%8)
+				p = sha256.Sum256(p[:])
+			}
+		}
+		if p != k.S {
+			return false
+		}
+	}
+	st.known[b] = verifC06RefEl{I: I, S: s}
+	return true
+}
+
+// probeSplicedChain plays a hostile peer against a FORK of party i: every
+// secret it reveals matches the commitment point it announced two
+// revocations earlier (so the point check passes), but from some height on
+// the points and secrets come from a second seed, i.e. the secrets do not
+// form one chain. The node must reject the first secret that the BOLT-3
+// consistency rule can tell apart (reference: verifC06RefStore); accepting
+// it means storing a chain it can no longer reproduce.
+func (e *verifE1) probeSplicedChain(i int, r *verifRng) {
+	if e.p.ChanType.IsTaproot() {
+		return // revoke_and_ack of taproot channels also carries nonces
+	}
+	fk := e.fork(i, "reload_error")
+	if fk == nil {
+		return
+	}
+	defer fk.Close()
+	R := fk.ch
+	peerRoot := e.parties[1-i].root
+	var root2 chainhash.Hash
+	copy(root2[:], r.Bytes(32))
+
+	// what R's store holds: the peer's real secrets of all revoked heights
+	ref := &verifC06RefStore{known: map[int]verifC06RefEl{}}
+	tail0 := R.commitChains.Remote.tail().height
+	for h := uint64(0); h < tail0; h++ {
+		ref.insert(h, verifShaDerive(peerRoot, h))
+	}
+	spliceFrom := tail0 + 2 // first height whose point the hostile peer still has to announce
+	e.vc.Count("spliced_chain_probes", 1)
+	for round := 0; round < 8; round++ {
+		if !R.commitChains.Remote.hasUnackedCommitment() {
+			var pre [32]byte
+			copy(pre[:], r.Bytes(32))
+			msg := &lnwire.UpdateAddHTLC{ChanID: e.chanID, Amount: lnwire.MilliSatoshi(1000 + r.Intn(5000)),
+				Expiry: 420, PaymentHash: sha256.Sum256(pre[:]), OnionBlob: verifOnion}
+			if _, err := R.AddHTLC(msg, nil); err != nil {
+				e.vc.Count("spliced_chain_probe_skipped", 1)
+				return
+			}
+			if _, err := R.SignNextCommitment(context.Background()); err != nil {
+				e.vc.Count("spliced_chain_probe_skipped", 1)
+				return
+			}
+		}
+		h := R.commitChains.Remote.tail().height // the commitment being revoked
+		root := peerRoot
+		if h >= spliceFrom {
+			root = root2
+		}
+		secret := verifShaDerive(root, h)
+		next := verifShaDerive(root2, h+2)
+		rev := &lnwire.RevokeAndAck{ChanID: e.chanID, Revocation: secret,
+			NextRevocationKey: input.ComputeCommitmentPoint(next[:])}
+		consistent := ref.insert(h, secret)
+		_, _, err := R.ReceiveRevocation(rev)
+		if h >= spliceFrom {
+			e.vc.Count("oracle_spliced_secret", 1)
+		}
+		switch {
+		case !consistent && err == nil:
+			e.viol("rejects_bad_revocation", "spliced-chain",
+				fmt.Sprintf("%s accepted the per-commitment secret of height %d, which matches the commitment point the peer "+
+					"announced but is not consistent with the secrets received before (heights < %d come from another seed): "+
+					"the stored chain can no longer reproduce the earlier secrets", e.parties[i].Name, h, spliceFrom))
+			return
+		case !consistent:
+			e.vc.Count("spliced_secret_rejected", 1)
+			return
+		case err != nil:
+			// consistent by the BOLT-3 rule, refused for another
+			// reason (not part of this oracle)
+			e.vc.Diag("spliced_probe_consistent_secret_refused", err.Error())
+			return
+		}
 	}
 }
